@@ -11,7 +11,7 @@
 (***************************************************************************)
 EXTENDS Forest, Json
 
-CONSTANTS MaxN, MaxAdds, MaxStack, MaxUnd, MaxFr, Acts
+CONSTANTS MaxN, MaxAdds, MaxStack, MaxUnd, MaxFr, MaxRst, Acts
 
 VARIABLES n, live, cached, stack, marks, hist
 
@@ -58,7 +58,7 @@ Obs(x, lv, C) ==
         pf     |-> JProof(CanonProofIn(x, nds, cs)) ]
 
 Init == /\ n = 0 /\ live = {} /\ cached = {} /\ stack = <<>>
-        /\ marks = [und |-> 0, fr |-> 0] /\ hist = <<>>
+        /\ marks = [und |-> 0, fr |-> 0, rst |-> 0] /\ hist = <<>>
 
 Push(rec) == IF MaxStack = 0 THEN <<>>
              ELSE SubSeq(<<rec>> \o stack, 1, IF Len(stack) + 1 > MaxStack THEN MaxStack ELSE Len(stack) + 1)
@@ -131,7 +131,30 @@ FromRoots ==
   /\ LET step == [ a |-> "fromroots", n |-> n, roots |-> Roots(n, live), post |-> Roots(n, live) ]
      IN  Step(step, n, live, {}, <<>>, [marks EXCEPT !.fr = @ + 1])
 
-Next == Modify \/ VerifyRemember \/ Ingest \/ Prune \/ Undo \/ FromRoots
+\* serialize + restore into a fresh instance; the behaviour continues on the
+\* restored instance (C13).  A stuttering step on the abstract state.
+Restore ==
+  /\ "restore" \in Acts
+  /\ marks.rst < MaxRst
+  /\ LET step == [ a |-> "restore", post |-> Roots(n, live) ]
+     IN  Step(step, n, live, cached, stack, [marks EXCEPT !.rst = @ + 1])
+
+\* asking the instance which proof positions it lacks for proving the live
+\* leaves B (C14).  The answer depends on what it stores, which the
+\* specification only bounds:  ProofPos(B) \ StoredUpper  \subseteq  missing
+\* \subseteq  ProofPos(B) \ StoredLower;  given the stored set it is exact:
+\* missing = ProofPos(B) \ stored.
+MissQ ==
+  /\ "missq" \in Acts
+  /\ \E B \in SUBSET live \ {{}} :
+       LET nds  == Nodes(n, live)
+           ord  == AscSeq(B)
+           pp   == ProofPos(n, {PosOfIn(nds, b) : b \in B})
+           step == [ a |-> "missq", s |-> ord, pf |-> JProof(CanonProofIn(n, nds, ord)), post |-> Roots(n, live) ]
+       IN  /\ UNCHANGED vars
+           /\ Emit(step, Obs(n, live, cached) @@ [pp |-> JPosSeq(pp)])
+
+Next == Modify \/ VerifyRemember \/ Ingest \/ Prune \/ Undo \/ FromRoots \/ Restore \/ MissQ
 Spec == Init /\ [][Next]_vars
 
 TypeOK == n \in 0..MaxN /\ live \subseteq 0..(n-1) /\ cached \subseteq live
